@@ -3,6 +3,6 @@
 set -e
 d="$1"
 git -C /repo worktree add --detach "$d" HEAD >/dev/null 2>&1
-cd /repo && find TidalPy -name '*.so' | cpio -pdm "$d" 2>/dev/null
+(cd /repo && rsync -a --include='*/' --include='*.so' --exclude='*' TidalPy/ "$d/TidalPy/")
 mkdir -p "$d/.xdg"
 echo "$d ready"
